@@ -3553,7 +3553,10 @@ func (t *Topic) notifySubChange(uid, actor types.Uid, isChan bool,
 	} else {
 		// Subscription altered.
 
-		if !(newWant & newGiven).IsPresencer() && (oldWant & oldGiven).IsPresencer() {
+		// A subscriber hears of the topic's presence with 'P' unless banned from it (no 'J').
+		oldPres := (oldWant & oldGiven).IsPresencer() && (oldWant & oldGiven).IsJoiner()
+		newPres := (newWant & newGiven).IsPresencer() && (newWant & newGiven).IsJoiner()
+		if !newPres && oldPres {
 			// Subscription just muted.
 
 			var source string
@@ -3567,7 +3570,7 @@ func (t *Topic) notifySubChange(uid, actor types.Uid, isChan bool,
 				presSingleUserOfflineOffline(uid, source, "off+dis", nilPresParams, "")
 			}
 
-		} else if (newWant & newGiven).IsPresencer() && !(oldWant & oldGiven).IsPresencer() {
+		} else if newPres && !oldPres {
 			// Subscription un-muted.
 
 			// Notify subscriber of topic's online status.
